@@ -3,6 +3,7 @@ package mongokit
 import (
 	"fmt"
 	"math"
+	"sort"
 
 	"go.mongodb.org/mongo-driver/bson"
 
@@ -110,8 +111,25 @@ func Project(doc, projection bsonkit.Doc) (bsonkit.Doc, error) {
 		}
 	}
 
+	// order overlays as they appear in the projection (iterating the map
+	// directly would make the field order of the result random)
+	paths := make([]string, 0, len(state.merge))
+	for _, el := range *projection {
+		if _, ok := state.merge[el.Key]; ok {
+			paths = append(paths, el.Key)
+		}
+	}
+	if len(paths) < len(state.merge) {
+		paths = paths[:0]
+		for path := range state.merge {
+			paths = append(paths, path)
+		}
+		sort.Strings(paths)
+	}
+
 	// merge fields (overlays from operator expressions)
-	for path, value := range state.merge {
+	for _, path := range paths {
+		value := state.merge[path]
 		// copy the overlay as it references parts of the original document
 		// that a later overlay on a nested path would otherwise write into
 		_, err := bsonkit.Put(res, path, bsonkit.CloneValue(value), false)
